@@ -103,6 +103,25 @@ class C06:
                                    + gen.seg([F.df5(0, 0, 0, 0, a)]) + gen.seg([hits[i]]) + ["dump"], "frame": hits[i]})
                     return
                 rep.nontriv(("other", kinds[i % len(kinds)], u, r))
+            # .. and as the FIRST frame of an aircraft a frame of another format leaves the squawk blank (a DF20 / DF4 reply carries an
+            # altitude code where DF21 / DF5 carry the identity code: the same 13 bits)
+            addrs2 = [0x280000 + i for i in range(n)]
+            firsts = [gen.rand_frame(rng, kinds[i % len(kinds)], a) for i, a in enumerate(addrs2)]
+            ops = ["reset", gen.cfg_op(use_update=u, relaxed=r), "case 0"] + gen.seg(firsts) + ["dump"]
+            impl, _, model = run.execute(ops)
+            rep.evaluations += len(firsts); rep.traces += 1
+            for d_ in core.compare_streams(impl, model):
+                rep.model_disagreements += 1
+                rep.violation(f"model and implementation disagree ({d_[3]}) after creating frames of other formats",
+                              {"property": "C06", "relation": "correspondence", "impl": d_[1], "model": d_[2]}, found_input=False)
+                break
+            rows = gen.parse_dump(impl)
+            for i, a in enumerate(addrs2):
+                if a in rows and rows[a].get("squawk") != "-":
+                    rep.impl_spec_failures += 1
+                    rep.violation(f"a {kinds[i % len(kinds)]} frame that created the row of {a:06X} set the squawk to {rows[a].get('squawk')}",
+                                  {"property": "C06", "ops": ["reset", gen.cfg_op(use_update=u, relaxed=r)] + gen.seg([firsts[i]]) + ["dump"], "frame": firsts[i]})
+                    return
 
     def same_ap(self, rep, run, rng, tier, driver_ok):
         """two different DF5 (or DF4 then DF5) replies of one aircraft whose 32 header bits differ by a multiple of the CRC generator
